@@ -720,3 +720,53 @@ Proof.
   unfold combine_max. destruct rs as [|r rs]; [reflexivity|].
   destruct (fold_left combine_step (r :: rs) _); reflexivity.
 Qed.
+
+(* ---------------------------------------------------------------- no mutation *)
+Definition ust_inv (e0 : xdict) (st : result ustate) : Prop :=
+  match st with Ok u => u_shared u = false /\ u_recv u = e0 | Err _ => True end.
+
+Lemma update_step_inv e0 st kv : ust_inv e0 st -> ust_inv e0 (update_step st kv).
+Proof.
+  destruct st as [u|e]; [|intros _; exact I]. intros [Hs Hr]. destruct kv as [k v].
+  unfold update_step. cbn [bind].
+  destruct (field_of_key k) as [f|].
+  - destruct f;
+      try (destruct (set_field _ v (u_data u)); cbn; [split; assumption|exact I]).
+    destruct v; cbn; try exact I. split; [reflexivity|assumption].
+  - destruct v; cbn; try exact I; rewrite Hs; (split; [reflexivity|assumption]).
+Qed.
+
+Lemma update_fold_inv e0 kw : forall st, ust_inv e0 st -> ust_inv e0 (fold_left update_step kw st).
+Proof.
+  induction kw as [|kv kw IH]; intros st H; cbn [fold_left]; [exact H|].
+  apply IH. now apply update_step_inv.
+Qed.
+
+Lemma set_extra_same r : set_extra r (extra_args r) = r.
+Proof. destruct r; reflexivity. Qed.
+
+(* update leaves its receiver unchanged and the result does not share the receiver's extra_args dict *)
+Lemma update_no_mutation r kw : snd (fst (update r kw)) = r /\ snd (update r kw) = false.
+Proof.
+  unfold update, update_gen.
+  pose proof (update_fold_inv (extra_args r) kw (Ok (mkU r (extra_args r) false)) (conj eq_refl eq_refl)) as H.
+  destruct (fold_left update_step kw _) as [u|e]; [|split; reflexivity].
+  destruct H as [Hs Hr]. rewrite Hr, Hs, set_extra_same.
+  destruct (post_init (u_data u)); split; reflexivity.
+Qed.
+
+(* the code before the fix: r.update(foo=1) wrote into r.extra_args and shared the dict with its result *)
+Lemma update_prefix_mutates :
+  exists r kw, valid_res r /\ snd (fst (update_prefix r kw)) <> r /\ snd (update_prefix r kw) = true.
+Proof.
+  exists (mkR (Some 1%Z) None None None None None None [] (s "external")), [(s "foo", UInt 1%Z)].
+  split; [apply sp_valid_iff; reflexivity|]. split; [vm_compute; discriminate|reflexivity].
+Qed.
+
+Lemma with_defaults_no_mutation r d :
+  snd (fst (fst (with_defaults r d))) = r /\ snd (fst (with_defaults r d)) = d.
+Proof. destruct d; split; reflexivity. Qed.
+
+Lemma maybe_with_defaults_no_mutation r d :
+  snd (fst (fst (maybe_with_defaults r d))) = r /\ snd (fst (maybe_with_defaults r d)) = d.
+Proof. destruct r, d; split; reflexivity. Qed.
